@@ -75,6 +75,20 @@ fn c03_all() {
             if e == 0 { println!("WITNESS non-ASCII character outside comments and strings accepted silently; source: {:?}", b); ok = false; }
         }
     }
-    println!("ORACLE-STATS evaluations={} distinct={} rule=one malformed or well-formed document each: keywords / reserved words / non-ASCII words in 7 name slots; structural errors (several items, trailing text, stray braces, unterminated string / comment, empty)", n, n);
+    // layout: every shape of block / line comment is skipped where layout may appear, and ends where it ends - a document that
+    // is malformed once the comments are taken out stays malformed
+    let comments = ["/**/", "/***/", "/****/", "/* x */", "/* x **/", "/** doc **/", "/* a * b */", "/* a ** b * / c */", "/*/ */", "/* \u{e9} \u{4e2d} */", "/*\n * x\n **/", "// l\n", "//\n", "/* // */", "// /* \n"];
+    for c in comments.iter() {
+        for c2 in comments.iter().take(7) {
+            n += 2;
+            let good = format!("package a.b; {} interface I {{ {} void f(); }} {}", c, c2, c);
+            let (e, tree, names) = errors(&good);
+            if e != 0 || !tree || names != ["a", "b", "I", "f"] { println!("WITNESS well-formed document with comments {:?} / {:?}: {} Error(s), tree={}, names {:?}; source: {:?}", c, c2, e, tree, names, good); ok = false; }
+            let bad = format!("package a.b; {} interface Old {{ }} {} interface New {{ }}", c, c2);
+            let (e, _, _) = errors(&bad);
+            if e == 0 { println!("WITNESS two items separated by comments {:?} / {:?} reported free of syntax errors; source: {:?}", c, c2, bad); ok = false; }
+        }
+    }
+    println!("ORACLE-STATS evaluations={} distinct={} rule=one malformed or well-formed document each: 15 x 7 comment shapes around and inside an item; keywords / reserved words / non-ASCII words in 7 name slots; structural errors (several items, trailing text, stray braces, unterminated string / comment, empty)", n, n);
     assert!(ok, "witness found");
 }
